@@ -28,6 +28,27 @@ pub fn apply_string_escapes(code: &str) -> String {
     }
 }
 
+/// Spell a text as a string literal, using only the escapes that
+/// [`apply_string_escapes`] expands. Rust's debug rendering also writes
+/// `\0`, `\u{..}` and the like, which the lexer does not know: it would read
+/// them back as other characters.
+pub fn quote_string(text: &str) -> String {
+    let mut code = String::with_capacity(text.len() + 2);
+    code.push('"');
+    for ch in text.chars() {
+        match ch {
+            | '\\' => code.push_str("\\\\"),
+            | '"' => code.push_str("\\\""),
+            | '\n' => code.push_str("\\n"),
+            | '\r' => code.push_str("\\r"),
+            | '\t' => code.push_str("\\t"),
+            | ch => code.push(ch),
+        }
+    }
+    code.push('"');
+    code
+}
+
 pub fn apply_char_escapes(code: &str) -> char {
     let mut iter = code.chars();
     // remove the quotes
